@@ -20,6 +20,7 @@ C06ok ==
     /\ (R.obs.result = "ok" =>
           /\ ~R.ref.must_err
           /\ Len(R.obs.tests) = Len(R.ref.tests)
+          /\ (R.fm = "any" \/ (R.obs.fm <=> R.fm = "yes"))                  \* the document configuration was read iff the document has a front-matter
           /\ \A x \in 1..Len(R.ref.tests) : TestOK(R.obs.tests[x], R.ref.tests[x]))
 \* a document without any malformed or rejectable construct whose tests are not yielded: prose / other blocks hid them
 Hidden == R.obs.result = "err" /\ ~R.ref.may_err /\ ~R.ref.must_err /\ Len(R.ref.tests) > 0
